@@ -136,7 +136,13 @@ func oracleC04(r *Rng, n int, thorough bool, seeds []string) *OracleResult {
 					what = fmt.Sprint("panic: ", e)
 				}
 			}()
-			q, err := dhcpv4.FromBytes(b)
+			// decoded from a private copy that is overwritten afterwards, as a receive
+			// buffer would be: the value judged is the one the caller is left with
+			bb := append([]byte{}, b...)
+			q, err := dhcpv4.FromBytes(bb)
+			for i := range bb {
+				bb[i] ^= 0x5a
+			}
 			ref := refDecode4(b)
 			switch {
 			case err != nil && ref != nil:
